@@ -233,6 +233,24 @@ def run(ctx):
                    for n in sx.walk(ik.item['body']))
         partial = [n for n in sx.walk(ik.item['body']) if n.get('k') == 'mcall' and n['m'] in ('starts_with', 'ends_with', 'find', 'eq_ignore_ascii_case')]
         k2.inst('whole-lexeme-compare')
+        bs = [n for n in sx.walk(ik.item['body']) if n.get('k') == 'mcall' and n['m'] in ('binary_search', 'binary_search_by', 'binary_search_by_key')]
+        if bs and not partial:
+            # a binary search is only a membership test on a table sorted in the comparison's order (byte order of str)
+            unsorted = []
+            for tn_, words_ in sorted(tabs.items()):
+                if None in words_:
+                    continue
+                for a_, b_ in zip(words_, words_[1:]):
+                    if not (a_.encode() < b_.encode()):
+                        unsorted.append((tn_, a_, b_))
+                        break
+            if unsorted and bs[0]['m'] == 'binary_search':
+                tn_, a_, b_ = unsorted[0]
+                k2.fail('%s:is_keyword:binary-search-unsorted:%s' % (g.crate, tn_), '%s/%s:%d' % (g.crate, ik.file, ik.line),
+                        'is_keyword looks the lexeme up with binary_search, but %s is not sorted ("%s" stands before "%s"; %d of %d tables are unsorted): '
+                        'reserved words of that set are not found and are accepted as identifiers' % (tn_, a_, b_, len(unsorted), len(tabs)))
+            elif bs[0]['m'] == 'binary_search':
+                cmp_ok = True
         if partial:
             k2.fail('%s:is_keyword:compare' % g.crate, '%s/%s:%d' % (g.crate, ik.file, ik.line),
                     'is_keyword must test equality of the whole lexeme; it uses .%s()' % partial[0]['m'])
